@@ -81,6 +81,8 @@ type c01Case struct {
 	sbHost, parHost  string
 	csb, cpar        bool
 	sbSet, parSet    []string
+	// authority section of the scripted upstream answer
+	uns []dns.RR
 
 	mode       string
 	bip4, bip6 netip.Addr
@@ -243,6 +245,8 @@ func c01ParseRR(tok string) dns.RR {
 		return &dns.AAAA{Hdr: hdr(dns.TypeAAAA), AAAA: net.IP(c01ParseIPTok(p[3]).AsSlice())}
 	case "CNAME":
 		return &dns.CNAME{Hdr: hdr(dns.TypeCNAME), Target: vutil.Unhex(p[3])}
+	case "SOA":
+		return &dns.SOA{Hdr: hdr(dns.TypeSOA), Ns: "ns.invalid.", Mbox: vutil.Unhex(p[3]), Serial: 1, Refresh: 2, Retry: 3, Expire: 4, Minttl: 5}
 	case "HTTPS":
 		prio, _ := strconv.Atoi(p[3])
 		rr := &dns.HTTPS{SVCB: dns.SVCB{Hdr: hdr(dns.TypeHTTPS), Priority: uint16(prio), Target: vutil.Unhex(p[4])}}
@@ -352,6 +356,10 @@ func (c *c01Case) extFields() (f []string) {
 			f = append(f, vutil.Hex(h))
 		}
 	}
+	f = append(f, strconv.Itoa(len(c.uns)))
+	for _, rr := range c.uns {
+		f = append(f, c01RRTok(rr, true))
+	}
 
 	return f
 }
@@ -445,6 +453,9 @@ func c01Decode(f []string) (c *c01Case) {
 	c.sbHost, c.parHost = c01ParseBlockHost(r.next()), c01ParseBlockHost(r.next())
 	c.csb, c.cpar = r.bool(), r.bool()
 	c.sbSet, c.parSet = r.strs(), r.strs()
+	for n := r.int(); n > 0; n-- {
+		c.uns = append(c.uns, c01ParseRR(r.next()))
+	}
 	c.mode = r.next()
 	c.bip4, c.bip6 = c01ParseIPTok(r.next()), c01ParseIPTok(r.next())
 	c.ttl, c.prot, c.pause, c.gfilt, c.aaaaDis, c.gSched = r.int(), r.bool(), r.next(), r.bool(), r.bool(), r.bool()
@@ -612,6 +623,7 @@ type c01Upstream struct {
 	order  []string
 	rcode  int
 	answer []dns.RR
+	ns     []dns.RR
 }
 
 var _ upstream.Upstream = (*c01Upstream)(nil)
@@ -630,6 +642,9 @@ func (u *c01Upstream) Exchange(m *dns.Msg) (resp *dns.Msg, err error) {
 	resp.Rcode = u.rcode
 	for _, rr := range u.answer {
 		resp.Answer = append(resp.Answer, dns.Copy(rr))
+	}
+	for _, rr := range u.ns {
+		resp.Ns = append(resp.Ns, dns.Copy(rr))
 	}
 
 	return resp, nil
@@ -1038,7 +1053,7 @@ func (e *c01Env) configure(c *c01Case) {
 	e.stopReload()
 	e.concurrent = false
 	e.apply(c)
-	e.ups.rcode, e.ups.answer = c.urcode, c.uans
+	e.ups.rcode, e.ups.answer, e.ups.ns = c.urcode, c.uans, c.uns
 	e.cur = c
 }
 
@@ -1394,7 +1409,7 @@ func (e *c01Env) cfgRun(f []string) (obs []string) {
 		hdr := func(n string, t uint16) dns.RR_Header {
 			return dns.RR_Header{Name: n, Rrtype: t, Class: dns.ClassINET, Ttl: 60}
 		}
-		e.ups.rcode = dns.RcodeSuccess
+		e.ups.rcode, e.ups.ns = dns.RcodeSuccess, nil
 		e.ups.answer = []dns.RR{&dns.CNAME{Hdr: hdr(qname, dns.TypeCNAME), Target: target + "."},
 			&dns.A{Hdr: hdr(target+".", dns.TypeA), A: net.IPv4(192, 0, 2, 1).To4()}}
 
@@ -1496,7 +1511,7 @@ func (e *c01Env) cfgRun(f []string) (obs []string) {
 			e.drain()
 		}
 		qname := vutil.Unhex(f[1])
-		e.ups.rcode = dns.RcodeSuccess
+		e.ups.rcode, e.ups.ns = dns.RcodeSuccess, nil
 		e.ups.answer = []dns.RR{&dns.TXT{Hdr: dns.RR_Header{Name: qname, Rrtype: dns.TypeTXT, Class: dns.ClassINET, Ttl: 60}, Txt: []string{"up"}}}
 
 		return e.query(e.cur.cip, qname, uint16(vutil.Atoi(f[2])))
@@ -1754,7 +1769,7 @@ func TestVerifC01Config(t *testing.T) {
 var c01Domains = []string{
 	"example.org", "ads.example.org", "sub.ads.example.org", "example.com", "tracker.net", "cdn.tracker.net",
 	"9gag.com", "www.9gag.com", "500px.org", "xample.org", "notexample.org", "example.org.evil.com", "org",
-	"a-b.example.org", "test.local", "_srv.example.org", "a_b.example.org", "7.example.org", "x.example.123",
+	"a-b.example.org", "test.local", "_srv.example.org", "a_b.example.org", "7.example.org", "x.example.123", "xn--e1afmkfd.xn--p1ai", "www.xn--80ak6aa92e.com",
 }
 
 var c01ServicePool = []string{"9gag", "500px", "discord", "dailymotion", "box"}
